@@ -105,8 +105,8 @@ def fold_group_application(m: Model):
             have = [(rl, t, sc) for rl, t, sc in rules if t is not None]
             if not have:
                 ok, want = r is None, 'no entry'
-            elif isinstance(r, Raises):
-                ok, want = False, 'an entry'
+            elif isinstance(r, Raises) or not isinstance(r, Obj):
+                ok, want = False, 'an entry (a rule of the group has a target)'
             else:
                 pairs = [(rl, t) for rl, t, sc in have]
                 inpairs = any(r.rule is rl and r.target is t for rl, t in pairs)
